@@ -520,10 +520,55 @@ def d2_cast(ctx, idx, st):
             elif isinstance(v, ast.Call) and nf.callee_name(v) == 'cast_np_numeric_as_builtin' and v.args and \
                     any(is_action_call(n) for n in ast.walk(v.args[0])):
                 r.ok(construct, 'cast_np_numeric_as_builtin(<action result>)', where)
+            elif isinstance(v, ast.Call) and _cast_in_helper(idx, en, v, is_action_call) is not None:
+                verdict, text = _cast_in_helper(idx, en, v, is_action_call)
+                if verdict == 'ok':
+                    r.ok(construct, text, where)
+                elif verdict == 'raw':
+                    r.violation(construct, text, where, expected='cast_np_numeric_as_builtin(<action result>, ...)')
+                else:
+                    r.undecided(construct, text, where)
             else:
                 r.undecided(construct, 'returned expression `%s` not recognised' % short(v), where)
         if not seen:
             raise AnalysisError('eval_node: no return that carries the result of an action')
+
+
+def _cast_in_helper(idx, en, v, is_action_call):
+    """eval_node returns helper(<action result>, ...): look at what the helper returns for that parameter.
+    ('ok' | 'raw' | 'unknown', text) or None when v is not such a call."""
+    from ..effects import map_args
+    targets, how = idx.resolve_call(en, v)
+    fis = [t for t in targets if not isinstance(t, tuple)]
+    if len(fis) != 1:
+        return None
+    h = fis[0]
+    pname = None
+    for p_, a in map_args(h, v).items():
+        if a is not None and is_action_call(a):
+            pname = p_
+    if pname is None:
+        return None
+    raw = cast = other = 0
+    for p in nf.decision_paths(h.node.body):
+        if p.leaf.kind != 'ret':
+            continue
+        x = p.leaf.expr
+        if nf.match("float('nan')", x) is not None or nf.match('_X.nan', x) is not None:
+            continue
+        if isinstance(x, ast.Name) and x.id == pname:
+            raw += 1
+        elif isinstance(x, ast.Call) and nf.callee_name(x) == 'cast_np_numeric_as_builtin' and x.args and any(
+                isinstance(n, ast.Name) and n.id == pname for n in ast.walk(x.args[0])):
+            cast += 1
+        else:
+            other += 1
+    if raw:
+        return 'raw', ('the helper %s hands the action result back as it is (no cast_np_numeric_as_builtin): numpy scalars '
+                       'escape from interior nodes' % h.name)
+    if cast and not other:
+        return 'ok', 'through %s: cast_np_numeric_as_builtin(<action result>)' % h.name
+    return 'unknown', 'returns of helper %s not recognised' % h.name
 
 
 # ----------------------------------------------------------------------------- D3
@@ -959,6 +1004,40 @@ def table_diff(want, got):
 
 
 # ----------------------------------------------------------------------------- D5
+def parse_call_site(idx, fi):
+    """(call node in MathParser.parse that performs the parse, expression of parse() that reaches raw_parse as its argument).
+    The raw_parse call may sit in a helper method: then the helper call is the site and the argument is followed through
+    the helper's parameter."""
+    direct = lib.calls_named(fi.node, 'raw_parse')
+    if len(direct) == 1:
+        c = direct[0]
+        if len(c.args) != 1 or c.keywords:
+            raise AnalysisError('raw_parse call shape')
+        return c, c.args[0]
+    if direct:
+        raise AnalysisError('expected exactly one call of raw_parse in %s, found %d' % (fi.qualname, len(direct)))
+    from ..effects import map_args
+    sites = []
+    for c in walk_own(fi.node):
+        if not (isinstance(c, ast.Call) and isinstance(c.func, ast.Attribute) and isinstance(c.func.value, ast.Name)
+                and c.func.value.id == fi.params[0]):
+            continue
+        tgt = idx.lookup(fi.cls, c.func.attr) if fi.cls is not None else None
+        if tgt is None:
+            continue
+        inner = lib.calls_named(tgt.node, 'raw_parse')
+        if len(inner) != 1 or len(inner[0].args) != 1 or inner[0].keywords:
+            continue
+        a = lib.inline_locals(inner[0].args[0], tgt.node)
+        if isinstance(a, ast.Name) and a.id in tgt.params:
+            arg = map_args(tgt, c).get(a.id)
+            if arg is not None:
+                sites.append((c, arg))
+    if len(sites) != 1:
+        raise AnalysisError('expected exactly one call of raw_parse in %s (directly or through one helper), found %d' % (fi.qualname, len(sites)))
+    return sites[0]
+
+
 def parse_key_discipline(r, idx):
     """MathParser.parse: (1) ROLE -- the membership test, the fetch, the store key and the argument of raw_parse are all
     the same value (independent of which normalisation is used); (2) that value is `expression.replace(' ', '')`.
@@ -970,11 +1049,9 @@ def parse_key_discipline(r, idx):
         raise AnalysisError('MathParser.parse: unexpected signature')
     me, E = fi.params
     want = "%s.replace(' ', '')" % E
-    call = lib.one_call(fi, 'raw_parse')
-    if len(call.args) != 1 or call.keywords:
-        raise AnalysisError('raw_parse call shape')
+    call, parsed_arg = parse_call_site(idx, fi)
     is_cache = lambda e: nf.match('%s.cache' % me, e) is not None
-    uses = [('string handed to raw_parse', call.args[0], call)]
+    uses = [('string handed to raw_parse', parsed_arg, call)]
     subs = [n for n in walk_own(fi.node) if isinstance(n, ast.Subscript) and is_cache(n.value)]
     no_store = not any(isinstance(s.ctx, ast.Store) for s in subs) and not lib.calls_named(fi.node, ('setdefault', 'update'))
     for s_ in subs:
@@ -1530,7 +1607,8 @@ def d7_case(ctx, idx, st):
         # check_scope: membership is tested with the recorded name itself
         cs = idx.func(ME + '.check_scope')
         seen = 0
-        for comp in [n for n in walk_own(cs.node) if isinstance(n, (ast.GeneratorExp, ast.ListComp, ast.SetComp))]:
+        cs_nodes = list(walk_own(cs.node)) + [n for root in _unrolled_rows(cs.node) for n in ast.walk(root)]
+        for comp in [n for n in cs_nodes if isinstance(n, (ast.GeneratorExp, ast.ListComp, ast.SetComp))]:
             if len(comp.generators) != 1:
                 continue
             gen = comp.generators[0]
@@ -1575,7 +1653,7 @@ def d7_case(ctx, idx, st):
             if isinstance(e, ast.Call) and isinstance(e.func, ast.Attribute) and e.func.attr == 'keys' and not e.args:
                 e = e.func.value
             return e.id if isinstance(e, ast.Name) else None
-        for n in walk_own(cs.node):
+        for n in cs_nodes:
             left = right = None
             if isinstance(n, ast.Call) and isinstance(n.func, ast.Attribute) and n.func.attr == 'difference' and len(n.args) == 1:
                 left, right = n.func.value, n.args[0]
@@ -1597,6 +1675,41 @@ def d7_case(ctx, idx, st):
             done.add(k)
         for k in sorted(set(SCOPE) - done):
             r.undecided('check_scope: %s' % k, 'no membership test of self.%s against `%s` recognised' % (k, SCOPE[k]), cs.loc)
+
+
+def _unrolled_rows(fn):
+    """For every `for a, b, ... in <literal table of tuples>` of fn: the loop body once per row, with the loop variables
+    replaced by the row's entries (a loop over an ordered literal table is a closed form of the repeated blocks)."""
+    out = []
+    env = lib.local_env(fn)
+    for loop in [n for n in walk_own(fn) if isinstance(n, ast.For)]:
+        table = loop.iter
+        if isinstance(table, ast.Name):
+            table = env.get(table.id)
+        if not isinstance(table, (ast.List, ast.Tuple)) or not table.elts:
+            continue
+        tgt = loop.target
+        if isinstance(tgt, ast.Name):
+            names = [tgt.id]
+        elif isinstance(tgt, (ast.Tuple, ast.List)) and all(isinstance(t, ast.Name) for t in tgt.elts):
+            names = [t.id for t in tgt.elts]
+        else:
+            continue
+        rows = []
+        for row in table.elts:
+            if isinstance(tgt, ast.Name):
+                rows.append({names[0]: row})
+            elif isinstance(row, (ast.Tuple, ast.List)) and len(row.elts) == len(names):
+                rows.append(dict(zip(names, row.elts)))
+            else:
+                rows = None
+                break
+        if not rows:
+            continue
+        for renv in rows:
+            for s_ in loop.body:
+                out.append(nf.subst(s_, renv))
+    return out
 
 
 # ------------------------------------------------------------------------- thorough tier
@@ -1797,4 +1910,23 @@ BENIGN = [
            "        def pairs(items):\n            while items:\n                yield items.pop(0), items.pop(0)\n\n        for op, value in pairs(parse_result[1:]):\n"),
     Benign('negation-by-parity', EXPR, "return num * (-1)**(len(parse_result) - 1)", "return num * (-1 if (len(parse_result) - 1) % 2 else 1)"),
     Benign('evaluator-blank-test-inlined', EXPR, "    formula = formula.strip()\n    if formula == \"\":", "    formula = formula.strip()\n    if not formula:"),
+    Benign('check-scope-block-as-loop-over-a-table', EXPR, "        bad_vars = set(var for var in self.variables_used if var not in variables)\n        if bad_vars:",
+           "        for used, available in [(self.variables_used, variables)]:\n            bad_vars = set(var for var in used if var not in available)\n        if bad_vars:"),
+    Benign('group-if-multiple-through-a-local-alias', EXPR, [
+        ("        power.addParseAction(self.group_if_multiple('power'))", "        gim = self.group_if_multiple\n        power.addParseAction(gim('power'))"),
+        ("        negation.addParseAction(self.group_if_multiple('negation'))", "        negation.addParseAction(gim('negation'))"),
+    ], None),
+    Benign('eval-node-result-screened-in-a-helper', EXPR, [
+        ("        return cast_np_numeric_as_builtin(result, map_across_lists=True)\n", "        return MathExpression._finish(result, allow_inf)\n"),
+        ("    @staticmethod\n    def eval_number(parse_result, suffixes):", "    @staticmethod\n    def _finish(result, allow_inf):\n        if allow_inf and result is None:\n            return float('nan')\n"
+         "        return cast_np_numeric_as_builtin(result, map_across_lists=True)\n\n    @staticmethod\n    def eval_number(parse_result, suffixes):"),
+    ], None),
+    Benign('raw-parse-behind-a-helper', EXPR, [
+        ("        try:\n            parsed = self.raw_parse(expression_no_whitespace)\n        except ParseException:\n"
+         "            msg = \"Invalid Input: Could not parse '{}' as a formula\"\n            raise UnableToParse(msg.format(expression))\n",
+         "        parsed = self._parse_uncached(expression, expression_no_whitespace)\n"),
+        ("    def parse(self, expression):", "    def _parse_uncached(self, expression, stripped):\n        try:\n            return self.raw_parse(stripped)\n"
+         "        except ParseException:\n            msg = \"Invalid Input: Could not parse '{}' as a formula\"\n            raise UnableToParse(msg.format(expression))\n\n"
+         "    def parse(self, expression):"),
+    ], None),
 ]
